@@ -539,18 +539,23 @@ PROPS['C12'] = dict(
 )
 
 PROPS['C13'] = dict(
-    modules=[],
-    contracts=[],
+    modules=['contracts.subseq_py'],
+    contracts=['subsequence.subsequencealignment.subsequence_alignment'],
     lemmas=[],
     bounded=dict({'c13-native-sweep': _native_sweep('subseq_native.py',
         'random (query 1..4, series 1..7, ndim 1..2) x penalty x engine: matching function == min over start points of the penalised DTW of the query and series[b..e] / len(query) (independent DP per segment); best match value / segment / path; kbest_matches distinct end points, ascending values, length limits, overlap, repeated iteration; Python == C', 2000, 20000)}),
-    level='exploration',
-    level_text='Bounded stand-in only: the matching function of SubsequenceAlignment is compared with an exhaustive minimum over all start points on small inputs.',
-    level_note='dtw.warping_paths, which computes the matrix, is under contract for begin-psi only (C04); the end-psi stage and the class logic are not.',
-    trusted_base=[],
-    assumptions=['bounded: small random inputs, stated in the sweep'],
+    level='proof',
+    level_text='Python engine: subsequence_alignment(query, series, penalty) -- construction of SubsequenceAlignment, align(), '
+               '_compute_matching() executed through the real DTWSettings, with dtw.warping_paths as a callee under its end-psi '
+               'contract (C04 stage 2) -- is proved to return a matching function with matching[e] == sqrt(W(len(query), e+1)) / '
+               'len(query), where W is the accumulated-cost recurrence with a free start along the series (psi_2b = len(series)): '
+               'by the Bellman lemma (specs/lean/Bellman.lean) the minimum over all paths that start in any border cell (0, b), i.e. '
+               'over all start points b <= e. Best match, k-best iterator, the C engine: bounded sweep only.',
+    level_note='Not machine-checked: the identification of border-cell paths with warping paths of (query, series[b..e]) (the same '
+               'L1-prime gap as C01). NumPy views are modelled as element-wise sequences (A3).',
+    trusted_base=[PY_A1, A3_NUMPY, A7],
+    assumptions=[PY_A1, A3_NUMPY, A7, 'bounded parts: small random inputs, stated in the sweep'],
     not_decided=['contract for SubsequenceAlignment.align / _best_matches (needs the end-psi stage of dtw.warping_paths and a lemma W(free start) = min over segments)'],
-    technique='bounded sweep of the real routines against an independent brute-force oracle (stand-in; no contract of this class-level routine is within reach of the verifier)',
 )
 
 PROPS['C14'] = dict(
